@@ -1,4 +1,5 @@
 """C16 — issued JWTs verify against the published key set and carry the system claims."""
+import concurrent.futures
 import copy
 import itertools
 import json
@@ -131,43 +132,6 @@ def spec_case(case, impl):
 
 
 # ---------------------------------------------------------------------------------------------------------------
-# fixes/C16-1.patch (a token signed while the key store was reloaded is cached under the key of the state that signed
-# it). The model describes the repaired behaviour. Until known_findings.json lists the repair under "fixed" (with its
-# name, C16-1), the one input class that shows the defect is counted instead of reported: cases with an execution
-# overlapping a reload of its key store ("inside") on which the implementation behaves exactly like the model of the
-# code before the repair (the token is stored under the stale key: one token more is signed later, or an execution is
-# handed the stale token when the old key is active again).
-
-FIX_PENDING_ID = "C16-reload-inside-execute"
-
-
-def fix_c16_1_pending():
-    if os.environ.get("VERIF_C16_FIX1") in ("fixed", "pending"):   # for trying the other mode out
-        return os.environ["VERIF_C16_FIX1"] == "pending"
-    return not any("C16-1" in f for f in vlib.known_findings().get("fixed", []) if isinstance(f, str))
-
-
-def has_inside(case):
-    return any(o.get("op") == "sign" and o.get("inside") is not None for o in case.get("ops", []))
-
-
-def pending_fix_class(case, impl, model=None, before=None):
-    """With the repair pending: does the implementation behave on this case exactly like the model of the code before
-    the repair (Model/SignerCache.lean: lookupKey — a token signed while the key store was reloaded is stored under
-    the key calculated for the lookup)?  Returns the number of operations that differ from the repaired behaviour
-    (0: not this class). `model` / `before`: the driver's answers for the case as it is / with that policy."""
-    if not has_inside(case):
-        return 0
-    if before is None:
-        before = vlib.run_cases(vlib.driver_cmd(), [dict(case, policy="lookup_key")])[0]
-    if differs(impl, before):
-        return 0
-    fixed = vlib.res_of(model if model is not None else vlib.run_cases(vlib.driver_cmd(), [case])[0])
-    b = vlib.res_of(before)
-    return max(1, sum(1 for x, y in zip(b.get("ops", []), fixed.get("ops", [])) if vlib.canon(x) != vlib.canon(y)))
-
-
-# ---------------------------------------------------------------------------------------------------------------
 # implementation vs model
 
 def normalise(impl, model):
@@ -224,14 +188,65 @@ def first_diff(case, impl, model):
     return "result", i, m
 
 
+def is_clocked(case):
+    """a case on the wall clock in which certificates run out (gen_signer.gen_expiry_case): it waits ~3 s"""
+    return bool(case.get("expiry_clock"))
+
+
+def run_clocked(exe, cases, env=None):
+    """cases that wait for a certificate to run out: each in a harness process of its own, side by side (they sleep)"""
+    if not cases:
+        return []
+    with concurrent.futures.ThreadPoolExecutor(max_workers=min(len(cases), 12)) as pool:
+        return list(pool.map(lambda c: vlib.run_cases([exe], [c], env=env, timeout=300)[0], cases))
+
+
 def run_both(exe, cases, env=None):
-    impl = vlib.run_cases([exe], cases, env=env, timeout=1500)
+    slow = [k for k, c in enumerate(cases) if is_clocked(c)]
+    if slow:
+        with concurrent.futures.ThreadPoolExecutor(max_workers=1) as side:
+            fut = side.submit(run_clocked, exe, [cases[k] for k in slow], env)
+            rest = [c for c in cases if not is_clocked(c)]
+            done = iter(vlib.run_cases([exe], rest, env=env, timeout=1500) if rest else [])
+            waited = iter(fut.result())
+        impl = [next(waited) if is_clocked(c) else next(done) for c in cases]
+    else:
+        impl = vlib.run_cases([exe], cases, env=env, timeout=1500)
     model = vlib.run_cases(vlib.driver_cmd(), cases)
     return impl, model
 
 
+def shrink_clocked(exe, case, env, failing):
+    """a case that waits for a certificate to run out takes seconds per run: one round, all candidates side by side —
+    every operation on its own, and every operation left out in turn; then the operations that cannot be left out"""
+    ops = case["ops"]
+    n = len(ops)
+    if n <= 1:
+        return case
+    cands = [dict(case, ops=[o]) for o in ops] + [dict(case, ops=ops[:k] + ops[k + 1:]) for k in range(n)]
+    impl, model = run_both(exe, cands, env)
+
+    def shows(c, i, m):
+        return not (isinstance(i, dict) and i.get("timing") is True) and failing(c, i, m)
+    ok = [shows(c, i, m) for c, i, m in zip(cands, impl, model)]
+    for k in range(n):
+        if ok[k]:
+            return cands[k]
+    needed = [k for k in range(n) if not ok[n + k]]
+    if needed and len(needed) < n:
+        small = dict(case, ops=[ops[k] for k in needed])
+        i, m = run_both(exe, [small], env)
+        if shows(small, i[0], m[0]):
+            return small
+    spare = [k for k in range(n) if ok[n + k]]
+    return cands[n + spare[-1]] if spare else case
+
+
 def shrink(exe, case, env, failing):
     """delta debugging on the operation list, then on holders' templates / reload stores"""
+    if is_clocked(case):
+        return shrink_clocked(exe, case, env, failing)
+
     def fails(ops):
         c = dict(case, ops=ops)
         i, m = run_both(exe, [c], env)
@@ -390,6 +405,7 @@ def run_watch(R, exe, env, n):
 
 def nontrivial(stats):
     return stats.get("tokens", 0) > 0 and (stats.get("reserved_named_custom_claims", 0) > 0
+                                           or stats.get("tokens_after_certificate_expiry", 0) > 0
                                            or stats.get("reloads_ok", 0) > 0
                                            or stats.get("cache_hits", 0) > 0
                                            or stats.get("cache_cross_variant_misses", 0) > 0
@@ -435,28 +451,30 @@ def run(R):
     n = 180 if not thorough else 4000
     grid = gen_signer.grid_cases()
     nt = 6 if not thorough else 30
-    cases = seq_corpus + grid + [gen_signer.gen_signer_case(R.rng, pool) for _ in range(n)] + \
+    ne = 1 if not thorough else 4
+    seq_plain = [c for c in seq_corpus if not is_clocked(c)]
+    cases = seq_plain + grid + [gen_signer.gen_signer_case(R.rng, pool) for _ in range(n)] + \
         [gen_signer.gen_timed_cache_case(R.rng, pool) for _ in range(nt)]
+    # certificates that run out while the case runs (leaf / issuing CA; ~3.5 s of waiting each): in processes of their
+    # own next to the stream above (run_both), so the wall clock of the check does not grow by their waiting
+    clocked = [c for c in seq_corpus if is_clocked(c)] + \
+        [gen_signer.gen_expiry_case(R.rng, pool, kind) for _ in range(ne) for kind in ("leaf", "ca")]
+    cases += clocked
     impl, model = run_both(exe, cases, env)
     lap("sequential_run")
     agg = {}
     nontriv = set()
     reported = 0
     transports = {}
-    off_schedule = timed = 0
-    pending = fix_c16_1_pending()
-    before = {}
-    if pending:
-        racing = [k for k, c in enumerate(cases) if has_inside(c)]
-        before = dict(zip(racing, vlib.run_cases(vlib.driver_cmd(), [dict(cases[k], policy="lookup_key")
-                                                                     for k in racing])))
-    for ci, (c, i, m) in enumerate(zip(cases, impl, model)):
+    off_schedule = timed = clocked_off = 0
+    for c, i, m in zip(cases, impl, model):
         if (c.get("cache") or {}).get("tick_ms"):
             timed += 1
         if isinstance(i, dict) and i.get("timing") is True:
             # the machine was too busy to keep the schedule of a case on the wall clock in any of the attempts:
             # nothing was observed (counted in the evidence)
             off_schedule += 1
+            clocked_off += 1 if is_clocked(c) else 0
             continue
         st = m.get("stats", {}) if isinstance(m, dict) else {}
         for k, v in st.items():
@@ -476,12 +494,6 @@ def run(R):
             continue
         sb = spec_case(c, i)
         df = differs(i, m)
-        npend = pending_fix_class(c, i, m, before.get(ci)) if (sb or df) and pending else 0
-        if npend:
-            # the defect fixes/C16-1.patch repairs, on a tree without it: the implementation is exactly the model of the
-            # code before the repair. Counted, not reported
-            R.known_hits[FIX_PENDING_ID] = R.known_hits.get(FIX_PENDING_ID, 0) + npend
-            sb, df = [], False
         if (sb or df) and reported < 5:
             reported += 1
             def failing(cc, ii, mm):
@@ -559,8 +571,12 @@ def run(R):
                 "context (the prototype and WithConfig variants differing in TTL and/or claims template, a second "
                 "finalizer with the same key and issuer, the same and other subjects / attributes / outputs again, "
                 "reloads to other, unchanged and earlier stores); timed cases repeat executions inside and outside "
-                "cache lifetimes of 0.5 / 1.5 / 2.5 ticks of 100 ms on the wall clock. Non-trivial sequential case = at "
+                "cache lifetimes of 0.5 / 1.5 / 2.5 ticks of 100 ms on the wall clock; cases whose signing certificate / "
+                "issuing CA certificate runs out 2-3 s after the start sign and read the key set before and after that "
+                "instant, reload the store with the expired certificate (refused) and a renewed / another one. "
+                "Non-trivial sequential case = at "
                 "least one token created and (custom claims naming a reserved claim, or a successful reload, or a "
+                "token handed out while a certificate of a published key is outside its validity period, or a "
                 "token served from the cache, or a cached token of the same subject not served because the executing "
                 "instance has another TTL, or more than one published key). Concurrent cases: "
                 "2-3 signer goroutines, 1-2 JWKS readers, 1-3 reloader goroutines firing OnChanged on goroutines of "
@@ -578,8 +594,6 @@ def run(R):
         "finalizers_created": agg.get("holders_created", 0), "finalizers_rejected": agg.get("holders_failed", 0),
         "cases_with_token_cache": agg.get("cache_cases", 0), "timed_cache_cases": timed,
         "tokens_signed_while_the_key_store_was_reloaded": agg.get("cache_stores_during_reload", 0),
-        "fix_C16_1_listed_as_fixed": not pending,
-        "operations_showing_the_defect_of_pending_fix_C16_1": R.known_hits.get(FIX_PENDING_ID, 0),
         "timed_or_cached_cases_off_schedule_not_judged": off_schedule,
         "tokens_served_from_cache": agg.get("cache_hits", 0), "tokens_signed_with_cache": agg.get("cache_misses", 0),
         "tokens_stored_in_cache": agg.get("cache_stores", 0),
@@ -588,7 +602,12 @@ def run(R):
         "concurrent_observations_overlapping_a_reload": noverlap,
         "race_detector": thorough, "jitter_overlay": bool(ov), "jwks_endpoint_transport": transports,
         "grid_cases": len(grid),
-        "samples": [cases[len(seq_corpus) + len(grid)]] if len(cases) > len(seq_corpus) + len(grid) else [cases[0]],
+        "samples": [cases[len(seq_plain) + len(grid)]] if len(cases) > len(seq_plain) + len(grid) else [cases[0]],
+        "cases_with_certificates_running_out": len(clocked),
+        "cases_with_certificates_running_out_off_schedule_not_judged": clocked_off,
+        "tokens_handed_out_after_a_published_certificate_ran_out": agg.get("tokens_after_certificate_expiry", 0),
+        "jwks_reads_after_a_published_certificate_ran_out": agg.get("jwks_reads_after_certificate_expiry", 0),
+        "reloads_refused_because_a_certificate_had_run_out": agg.get("reloads_refused_for_expired_certificate", 0),
         "disagreements_checked": reported + conc_reported,
         "seconds_per_phase": phases,
     })
@@ -612,12 +631,12 @@ def run(R):
         "of template, subject and outputs; executions of one history are sequential (concurrent executions racing "
         "for one cache entry are not modelled); cases on the wall clock that miss their schedule are repeated and, "
         "if the machine stays too busy, not judged (counted)",
+        "time: the model judges certificates at the instant of each load from validity periods the generator supplies "
+        "(Model/SignerTime.lean); on the real side the certificates are generated with NotAfter 2-3 s after the start of "
+        "the case and the harness waits; an operation counts only if it ran on the side of every real expiry instant "
+        "the model has it on (else the case is repeated, after three attempts not judged); X.509 validity is otherwise "
+        "opaque (crypto/x509 trusted)",
     ]
-    if R.known_hits.get(FIX_PENDING_ID):
-        print(f"FIX-PENDING: property={PID} fixes/C16-1.patch is not listed as fixed in known_findings.json: a token signed "
-              f"while the key store was reloaded is cached under the key calculated before the reload and handed out "
-              f"when that key is active again ({R.known_hits[FIX_PENDING_ID]} operations this run behave like the model of the "
-              f"code before the repair: counted, not reported)")
     if gen_err:
         R.violation("extraction of the locking protocol of jwtSigner from the source failed: " + gen_err, {"error": gen_err},
                     no_input=True)
@@ -640,7 +659,7 @@ def replay(R, path):
         R.violation("harness does not build", {"build_log": log[-3000:]}, no_input=True)
         return
     env = dict(os.environ, TMPDIR=R.tmp)
-    c = p.get("case")
+    c = p.get("case") or (p if "fam" in p else None)   # a replay file, or a bare case (corpus/C16/*.json)
     if not c:
         print("the replay file names no input:", p.get("what"))
         R.violation("replay without a concrete input: " + str(p.get("what"))[:300], p, no_input=True)
